@@ -54,3 +54,9 @@ func VHJSONLoad() {
 	c, _ := VGStack()
 	containers.VJSONLoad(vJSON(c))
 }
+
+// VHHistory: D operations in a row from the constructor (see VMapHistory).
+func VHHistory() {
+	s := New[int]()
+	containers.VLinHistory(containers.VLin{Name: "LinkedListStack", C: s, Push: s.Push, Pop: s.Pop, Peek: s.Peek, LIFO: true, Inv: func() { singlylinkedlist.VInv(s.list) }})
+}
